@@ -632,6 +632,25 @@ def run(prog, rep, tier):
     if badv:
         rep.violation(R43, "MAP_TZZ_TO_TZz|values", "MAP_TZZ_TO_TZz: malformed offsets %s" % badv[:4])
 
+    # ------------------------------------------------------------ R4.8 the --tz-offset value itself (lift of C14 R14.4, R14.8)
+    # "A timestamp without zone information is read in the --tz-offset zone": the option's parser is part
+    # of this property; its structural rules live in C14 and are lifted here.
+    import contextlib as _cl4, io as _io4
+    import c14 as _c14
+    from common import Report as _Rep4
+    R48 = rep.rule("R4.8", "the --tz-offset option resolves to the offset it denotes (from C14 R14.4, R14.8)")
+    _s14 = _Rep4("C14", "quick", dict(rep.meta))
+    _s14.finish = lambda *a, **k: 0
+    with _cl4.redirect_stdout(_io4.StringIO()):
+        _c14.run(prog, _s14, "quick")
+    for (rid_, key_, what_, det_) in _s14.violations:
+        if rid_ in ("R14.4", "R14.8"):
+            rep.violation(R48, key_.split("|", 1)[1], what_)
+    for rid_ in ("R14.4", "R14.8"):
+        for k_ in sorted(_s14.rules.get(rid_, {}).get("keys", ())):
+            rep.examined(R48, "%s|%s" % (rid_, k_), sample={"rule": rid_, "instance": k_})
+    rep.floor("R4.8", 2)
+
     return rep.finish(
         "Static check, for all strings of the regular language of each of the table's rows: the byte pre-check chosen for the row (helper byte "
         "classes read from the helpers' MIR, selection read from ezcheck_slice and DTFSSet::has_year4/has_d2) never rejects a string the regex "
